@@ -137,6 +137,11 @@ def execute(case):
             bad("cache-production-fails", f"{type(e).__name__}: {str(e)[:120]}", exc=type(e).__name__)
             env.wipe_cache()
             return {"ok": False, "failures": fails, "outcome": "production-fails"}
+        if case.get("touch_images"):
+            # the images are (re)deployed after their index files - same bytes, newer modification time: the caches are
+            # still the caches of these images
+            for n in names:
+                prod.put(n, files[n])
         # uncached reference (iii part 1: no index consulted)
         with cachelab.recording() as ev:
             ref_tree = prod.open(use_cache=False, records_per_chunk=rpc_r)
@@ -292,6 +297,10 @@ def plan(tier):
             for producer in ("option", "cli-adjacent", "cli-target"):
                 for fs in ("mcfs", "local"):
                     cases.append({"level": level, "producer": producer, "fs": fs, "rpc_w": 2, "rpc_r": 3, "line_mode": mode})
+    for level in levels:
+        for producer in ("option", "cli-adjacent", "cli-target"):
+            for fs in ("mcfs", "local"):
+                cases.append({"level": level, "producer": producer, "fs": fs, "rpc_w": 2, "rpc_r": 3, "touch_images": True})
     for i, c in enumerate(cases):
         c["tag"] = str(i)
     return cases
@@ -301,7 +310,7 @@ def run(res, tier, seed):
     res.rule = (
         "configurations = level {1.1 two ScanSAR images, 1.5 two polarisations} x producer {none, open option, CLI adjacent, CLI into"
         " user-cache dir, option+CLI} x filesystem {mcfs+storage_options, local path, file://, memory://} x rpc_write {1,2,4096} x"
-        " rpc_read {1,3,1024}, plus per-line values {identical on all lines, drifting by one unit per line, piecewise constant over 22..23 lines} x producer x {mcfs, local};" " 16 configurations again in an interpreter whose locale encoding is ASCII;" " each configuration = produce caches, uncached open,"
+        " rpc_read {1,3,1024}, plus per-line values {identical on all lines, drifting by one unit per line, piecewise constant over 22..23 lines} x producer x {mcfs, local};" " 12 configurations in which the image files are rewritten (same bytes, newer modification time) after their caches were made;" " 16 configurations again in an interpreter whose locale encoding is ASCII;" " each configuration = produce caches, uncached open,"
         " cached open, full loads, poisoned-index opens; states = configurations, transitions = opens executed."
     )
     res.assumptions = ["I/O on memory:// cannot be observed (only tree equality is checked there)", "the adjacent index of a non-local product is produced by the CLI on a local copy and uploaded (documented workflow)"]
